@@ -717,10 +717,37 @@ func (in *inliner) classify(fn *ssa.Function, v ssa.Value, at *ssa.BasicBlock, d
 			break
 		}
 		kindTrue, kindFalse := "", ""
-		if cond == v {
+		same := func(o ssa.Value) bool {
+			if o == v {
+				return true
+			}
+			// `if e != nil { return e }` on a cell (captured variable): the test and the return read the cell twice;
+			// they are the same value when the second read sits directly behind the branch with nothing in between
+			lv, ok1 := v.(*ssa.UnOp)
+			lo, ok2 := o.(*ssa.UnOp)
+			if !ok1 || !ok2 || lv.Op != token.MUL || lo.Op != token.MUL || lv.X != lo.X || lv.Block() != at {
+				return false
+			}
+			if _, isAlloc := lv.X.(*ssa.Alloc); !isAlloc {
+				return false
+			}
+			if (len(b.Succs) > 0 && b.Succs[0] != at) && (len(b.Succs) > 1 && b.Succs[1] != at) {
+				return false
+			}
+			for _, ins := range at.Instrs {
+				if ins == ssa.Instruction(lv) {
+					return true
+				}
+				if u, isLoad := ins.(*ssa.UnOp); !isLoad || u.Op != token.MUL {
+					return false
+				}
+			}
+			return false
+		}
+		if same(cond) {
 			kindTrue, kindFalse = "true", "false"
 		} else if bo, ok := cond.(*ssa.BinOp); ok && (bo.Op == token.EQL || bo.Op == token.NEQ) {
-			if (bo.X == v && isNilConst(bo.Y)) || (bo.Y == v && isNilConst(bo.X)) {
+			if (same(bo.X) && isNilConst(bo.Y)) || (same(bo.Y) && isNilConst(bo.X)) {
 				if bo.Op == token.NEQ {
 					kindTrue, kindFalse = "nonnil", "nil"
 				} else {
